@@ -229,7 +229,7 @@ pub fn render(i: &RIface, l: Layout) -> String {
 // ------------------------------------------------------------------------------------------------
 // lifting zlink's description into the reference AST
 
-fn lift_comments<'a>(it: impl Iterator<Item = &'a idl::Comment<'a>>) -> Vec<String> {
+pub fn lift_comments<'a>(it: impl Iterator<Item = &'a idl::Comment<'a>>) -> Vec<String> {
     it.map(|c| c.content().trim().to_string()).collect()
 }
 
@@ -248,7 +248,7 @@ pub fn lift_type(t: &idl::Type<'_>) -> RType {
         idl::Type::Enum(v) => RType::Enum(v.iter().map(|x| RVariant { comments: lift_comments(x.comments()), name: x.name().to_string() }).collect()),
     }
 }
-fn lift_field(f: &idl::Field<'_>) -> RField {
+pub fn lift_field(f: &idl::Field<'_>) -> RField {
     RField { comments: lift_comments(f.comments()), name: f.name().to_string(), ty: lift_type(f.ty()) }
 }
 
